@@ -51,6 +51,14 @@ func workloads() map[string]families.Workload {
 				wlCache[fmt.Sprintf("%s/%s/one", tn, cd)] = families.Workload{Name: fmt.Sprintf("%s/%s/one", tn, cd), Target: tn, Recs: families.MixedRecords(tt, 1), Batches: []int{1}, Page: 0, Codec: cd}
 			}
 		}
+		// records still pending at Close (never written as a row group): more
+		// than one page of them, after a written batch and on their own.  The
+		// fileOf convention: records beyond the batches are added, not written
+		for _, cd := range families.Codecs3() {
+			tt := sut.Get("mini")
+			wlCache[fmt.Sprintf("mini/%s/pending", cd)] = families.Workload{Name: fmt.Sprintf("mini/%s/pending", cd), Target: "mini", Recs: families.MixedRecords(tt, 7), Batches: []int{2}, Page: 2, Codec: cd}
+			wlCache[fmt.Sprintf("mini/%s/pendingonly", cd)] = families.Workload{Name: fmt.Sprintf("mini/%s/pendingonly", cd), Target: "mini", Recs: families.MixedRecords(tt, 5), Batches: nil, Page: 2, Codec: cd}
+		}
 		t := sut.Get("flat24")
 		for _, cd := range families.Codecs3() {
 			w := families.Workload{Name: fmt.Sprintf("flat24/%s/3rg", cd), Target: "flat24", Recs: families.MixedRecords(t, 7), Batches: []int{3, 2, 2}, Page: 2, Codec: cd}
@@ -125,7 +133,7 @@ func fileOf(w families.Workload) []byte {
 		bs = append(bs, g[p:p+n])
 		p += n
 	}
-	f, err, pm := drive.WriteFile(t, bs, nil, w.Page, w.Codec, nil)
+	f, err, pm := drive.WriteFile(t, bs, g[p:], w.Page, w.Codec, nil)
 	if err != nil || pm != "" {
 		panic(fmt.Sprintf("workload %s cannot be written: %v %s", w.Name, err, pm))
 	}
@@ -147,10 +155,13 @@ func runPrefix(w families.Workload, n int) string {
 	if rr.OpenErr != nil || rr.Err != nil {
 		return ""
 	}
-	// accepted without any error: only legitimate if the prefix happens to be
-	// a complete valid file itself (excluded by construction; verified here)
+	// accepted without any error.  No workload here stores the image of a
+	// complete file inside a value, so a prefix that is a complete valid file
+	// in its own right can only come from the writer itself (a second trailer
+	// emitted before the real one): the cut file is accepted all the same,
+	// which is what the property forbids.
 	if pf, err := refpq.ParseFile(prefix, refpq.ParseOptions{}); err == nil && len(pf.Problems) == 0 {
-		return ""
+		return fmt.Sprintf("a file cut to %d of %d bytes is accepted (%d rows delivered): the writer produced a file whose strict prefix is a complete valid file in its own right", n, len(file), len(rr.Recs))
 	}
 	return fmt.Sprintf("a file cut to %d of %d bytes is accepted: constructor ok, Error()==nil, %d rows delivered (Rows()=%d)", n, len(file), len(rr.Recs), rr.Rows)
 }
